@@ -79,6 +79,20 @@ class FakeStdin:
             self.buffer = io.BufferedReader(ChunkedRaw(data, bursts), buffer_size=max(16, min(4096, (len(data) // 3) or 16)))
 
 
+def write_noncanonical_wav(path, data, sr, sw, ch):
+    """A perfectly valid RIFF/WAVE file that is not laid out the way Python's wave module writes it: an 18-byte fmt chunk, a LIST/INFO
+    chunk before the data (ffmpeg writes one), an odd-sized chunk with its pad byte, and metadata after the data (audio editors do that)."""
+    import struct
+
+    def chunk(cid, payload):
+        return cid + struct.pack("<I", len(payload)) + payload + (b"\0" if len(payload) % 2 else b"")
+    fmt = struct.pack("<HHIIHHH", 1, ch, sr, sr * sw * ch, sw * ch, 8 * sw, 0)
+    info = b"INFO" + chunk(b"ISFT", b"verif harness\0")
+    body = b"WAVE" + chunk(b"fmt ", fmt) + chunk(b"LIST", info) + chunk(b"junk", b"\x01\x02\x03") + chunk(b"data", data) + chunk(b"LIST", b"INFO" + chunk(b"ICMT", b"trailing metadata"))
+    with open(path, "wb") as f:
+        f.write(b"RIFF" + struct.pack("<I", len(body)) + body)
+
+
 KINDS = ["bytes", "source", "raw", "raw_lazy", "wav", "wav_lazy", "stdin", "stdin_pipe"]
 
 
@@ -101,11 +115,14 @@ def make_input(kind, data, sr, sw, ch, tmpdir, tag="a"):
         return path, kw, lambda: None
     if kind in ("wav", "wav_lazy"):
         path = os.path.join(tmpdir, f"{tag}.wav")
-        with wave.open(path, "wb") as w:
-            w.setframerate(sr)
-            w.setsampwidth(sw)
-            w.setnchannels(ch)
-            w.writeframes(data)
+        if (len(data) + sr + sw + ch) % 2:
+            write_noncanonical_wav(path, data, sr, sw, ch)
+        else:
+            with wave.open(path, "wb") as w:
+                w.setframerate(sr)
+                w.setsampwidth(sw)
+                w.setnchannels(ch)
+                w.writeframes(data)
         kw = {}
         if kind == "wav_lazy":
             kw["large_file"] = True
